@@ -30,6 +30,8 @@ impl RecorderOnceCell {
     where
         R: Recorder + 'static,
     {
+        #[cfg(metrics_verif)]
+        crate::verif::point("cell.set.cas");
         // Try and transition the cell from `UNINITIALIZED` to `INITIALIZING`, which would give
         // us exclusive access to set the recorder.
         match self.state.compare_exchange(
@@ -39,12 +41,16 @@ impl RecorderOnceCell {
             Ordering::Relaxed,
         ) {
             Ok(UNINITIALIZED) => {
+                #[cfg(metrics_verif)]
+                crate::verif::point("cell.set.write");
                 unsafe {
                     // SAFETY: Access is unique because we can only be here if we won the race
                     // to transition from `UNINITIALIZED` to `INITIALIZING` above.
                     self.recorder.get().write(Some(Box::leak(Box::new(recorder))));
                 }
 
+                #[cfg(metrics_verif)]
+                crate::verif::point("cell.set.store");
                 // Mark the recorder as initialized, which will make it visible to readers.
                 self.state.store(INITIALIZED, Ordering::Release);
                 Ok(())
@@ -54,9 +60,13 @@ impl RecorderOnceCell {
     }
 
     pub fn try_load(&self) -> Option<&'static dyn Recorder> {
+        #[cfg(metrics_verif)]
+        crate::verif::point("cell.load.state");
         if self.state.load(Ordering::Acquire) != INITIALIZED {
             None
         } else {
+            #[cfg(metrics_verif)]
+            crate::verif::point("cell.load.read");
             // SAFETY: If the state is `INITIALIZED`, then we know that the recorder has been
             // installed and is safe to read.
             unsafe { self.recorder.get().read() }
